@@ -7,15 +7,23 @@
   token binds tighter than the current right binding power, and each infix parser passes the
   binding power that encodes its associativity (own power: left; own power − 1: right; 0 for
   bracketed operands and for both branches of ? :).
-  Not proved (partial, DESIGN.md §6 C04): the round trip `parse (print t) = t` for the
-  minimal-parenthesis printer; it is covered by the correspondence, which prints operator
-  trees with an independently written printer and compares trees (all ordered pairs/triples).
+  And the structure itself, for every tree (`parse_reads_back`): whenever the tokens of the input spell an
+  expression tree built from operands, parentheses, unary minus, postfix predicates, the seventeen binary
+  operators, `? :` and `:=` in which every operand binds as the table demands (left operand at least as tight,
+  right operand strictly tighter, else-branch and assigned value extending to the right), the parser returns
+  exactly that tree — any depth, any width; two such trees spelled by the same tokens are the same parse.
+  Not proved (partial, DESIGN.md §6 C04): the same for the list-shaped constructs (calls, array and object
+  constructors, grouping, order-by, lambdas) and the step from bytes to tokens for arbitrary texts (whitespace,
+  quotes, `/`); both are covered by the correspondence, which prints operator trees with an independently
+  written printer and compares trees (all ordered pairs/triples).
 -/
 import JsonataModel.Model.Parser
+import JsonataModel.Lemmas.LexerProgress
 import JsonataModel.Generated.Facts
 
 namespace Jsonata.Props.C04
 open Jsonata Jsonata.Lex Jsonata.Parse
+open Jsonata.LexerProgress (R advance_R R_le)
 
 /-! ### the table of the statement -/
 
@@ -161,5 +169,627 @@ theorem symbol_tables :
       [some "typeAnd", some "typeOr", some "typeIn", some "typeBoolean", some "typeBoolean", some "typeNull", none, none] ∧
     ((List.range 128).filter isWhitespace) = [9, 10, 11, 13, 32] ∧ ((List.range 128).filter isRegexFlag) = [105, 109, 115] := by
   decide
+
+/-! ### the structure of the parse, for every tree
+
+The parser interleaves lexing and parsing (the regex flag depends on the parser's state), so the theorem is
+stated over the token stream the lexer produces from the input: `Stream`/`Reads` say which tokens the real
+`next` yields, `E` are expression trees, `toks` the tokens that spell a tree, `node` the parse tree it denotes,
+`WF` the table's condition on operands.  `parse_into_loop` is the induction (it uses the measure `R` of
+Lemmas/LexerProgress to show that the loop budgets suffice), `parse_reads_back` the statement. -/
+
+/-- `Stream inp s ts`: started in lexer state `s`, the lexer yields the tokens `ts` one after the other,
+    whichever way the parser sets the regex flag -/
+inductive Stream (inp : Input) : LState → List Token → Prop
+  | nil (s : LState) : Stream inp s []
+  | cons (s s' : LState) (t : Token) (ts : List Token) :
+      (∀ b, next inp b s = .ok (t, s')) → Stream inp s' ts → Stream inp s (t :: ts)
+
+/-- the parser state is about to read `ts`: its look-ahead token is the first, the lexer yields the rest -/
+def Reads (inp : Input) (p : PState) : List Token → Prop
+  | [] => False
+  | t :: ts => p.tok = t ∧ Stream inp p.lex ts
+
+theorem reads_advance (inp : Input) (b : Bool) (p : PState) (t t' : Token) (ts : List Token)
+    (h : Reads inp p (t :: t' :: ts)) : ∃ q, advance inp b p = .ok q ∧ Reads inp q (t' :: ts) := by
+  obtain ⟨_, hs⟩ := h
+  cases hs with
+  | cons s s' t1 ts1 hn hrest =>
+    refine ⟨{ lex := s', tok := t' }, ?_, rfl, hrest⟩
+    simp [advance, hn b]
+
+/-- expression trees over atoms, parentheses and the binary operators -/
+inductive E
+  /-- a token that is an operand by itself, and the node it denotes -/
+  | atom (t : Token) (n : PNode)
+  | paren (o c : Token) (e : E)
+  /-- `- e` -/
+  | neg (m : Token) (e : E)
+  /-- `l [ e ]` -/
+  | pred (o c : Token) (l e : E)
+  | bin (o : Token) (l r : E)
+  | cond (q col : Token) (c t e : E)
+  | assign (v o : Token) (val : E)
+
+def isAtom : Tok → Bool
+  | .variable | .name | .nameEsc | .null | .boolean => true
+  | _ => false
+
+def atomNode (inp : Input) (t : Token) : PNode :=
+  match t.type with
+  | .variable => .var (bytesToString inp t.lo t.hi)
+  | .null => .null
+  | .boolean => .bool (bytesToString inp t.lo t.hi == "true")
+  | _ => .name (bytesToString inp t.lo t.hi)
+
+/-- the node a binary operator token builds -/
+def binNode : Tok → Option (PNode → PNode → PNode)
+  | .dot => some .dot
+  | .apply => some .apply
+  | .concat => some .concat
+  | .and_ => some (.boolop .and_)
+  | .or_ => some (.boolop .or_)
+  | .plus => some (.numop .add) | .minus => some (.numop .sub) | .mult => some (.numop .mul)
+  | .div => some (.numop .div) | .mod => some (.numop .mod)
+  | .equal => some (.cmpop .eq) | .notEqual => some (.cmpop .ne) | .less => some (.cmpop .lt)
+  | .lessEqual => some (.cmpop .le) | .greater => some (.cmpop .gt) | .greaterEqual => some (.cmpop .ge)
+  | .in_ => some (.cmpop .in_)
+  | _ => none
+
+def node (inp : Input) : E → PNode
+  | .atom _ n => n
+  | .paren _ _ e => .block [node inp e]
+  | .neg _ e => .neg (node inp e)
+  | .pred _ _ l e => .predRaw (node inp l) (node inp e)
+  | .bin o l r =>
+    match binNode o.type with
+    | some mk => mk (node inp l) (node inp r)
+    | none => .null
+  | .cond _ _ c t e => .cond (node inp c) (node inp t) (some (node inp e))
+  | .assign v _ val => .assign (bytesToString inp v.lo v.hi) (node inp val)
+
+def toks : E → List Token
+  | .atom t _ => [t]
+  | .paren o c e => o :: (toks e ++ [c])
+  | .neg m e => m :: toks e
+  | .pred o c l e => toks l ++ o :: (toks e ++ [c])
+  | .bin o l r => toks l ++ o :: toks r
+  | .cond q col c t e => toks c ++ q :: (toks t ++ col :: toks e)
+  | .assign v o val => v :: o :: toks val
+
+/-- how tightly the outermost construct binds: the operator's binding power; atoms and parentheses
+    bind tighter than every operator -/
+def top : E → Nat
+  | .bin o _ _ => bp o.type
+  | .cond .. => bp .condition
+  | .assign .. => bp .assign
+  | .pred .. => bp .bracketOpen
+  | _ => 1000
+
+/-- what may follow the construct without being drawn into it: a token that binds no tighter than this.
+    The else-branch of `? :` and the value of `:=` extend as far as they can (they group to the right), so only
+    a token without binding power (a closing bracket, a separator, the end) can follow them. -/
+def stop : E → Nat
+  | .bin o _ r => min (bp o.type) (stop r)
+  | .neg _ e => min (bp .minus) (stop e)
+  | .cond .. => 0
+  | .assign .. => 0
+  | .pred .. => bp .bracketOpen
+  | _ => 1000
+
+/-- the tree is one the table allows without further parentheses: the left operand binds at least as
+    tightly as the operator (equal precedence groups to the left), the right operand strictly tighter -/
+def WF (inp : Input) : E → Prop
+  | .atom t n => ∀ pe p, nud inp pe t p = .ok (n, p)
+  | .paren o c e => o.type = .parenOpen ∧ c.type = .parenClose ∧ WF inp e
+  | .neg m e => m.type = .minus ∧ WF inp e ∧ bp .minus < top e
+  | .pred o c l e => o.type = .bracketOpen ∧ c.type = .bracketClose ∧ WF inp l ∧ WF inp e ∧ bp .bracketOpen ≤ stop l
+  | .bin o l r => (binNode o.type).isSome = true ∧ WF inp l ∧ WF inp r ∧ bp o.type ≤ stop l ∧ bp o.type < top r
+  | .cond q col c t e =>
+    q.type = .condition ∧ col.type = .colon ∧ WF inp c ∧ WF inp t ∧ WF inp e ∧ bp .condition ≤ stop c
+  | .assign v o val => v.type = .variable ∧ o.type = .assign ∧ WF inp val
+
+theorem led_bin (inp : Input) (pe : Nat → PState → Except PErr (PNode × PState)) (t : Token) (lhs : PNode)
+    (p : PState) (mk : PNode → PNode → PNode) (h : binNode t.type = some mk) :
+    led inp pe t lhs p = (do let (rhs, p1) ← pe (bp t.type) p; .ok (mk lhs rhs, p1)) := by
+  cases ht : t.type <;> simp [ht, binNode] at h <;> subst h <;> simp [led, ht, numOpOfTok, cmpOpOfTok]
+
+theorem bin_bp_pos (t : Tok) (h : (binNode t).isSome = true) : 0 < bp t ∧ bp t < 1000 := by
+  cases t <;> simp [binNode] at h <;> decide
+
+theorem top_pos (inp : Input) (e : E) (h : WF inp e) : 0 < top e := by
+  cases e with
+  | atom t n => simp [top]
+  | paren o c e => simp [top]
+  | neg m e => simp [top]
+  | pred o c l e => simp only [top]; decide
+  | bin o l r => exact (bin_bp_pos _ h.1).1
+  | cond q col c t e => simp only [top]; decide
+  | assign v o val => simp only [top]; decide
+
+theorem stop_le_top (e : E) : stop e ≤ top e := by
+  have : bp Tok.minus = 60 := by decide
+  cases e <;> simp only [stop, top] <;> omega
+
+theorem assign_lt_top (inp : Input) (e : E) (h : WF inp e) : bp .assign - 1 < top e := by
+  have h9 : bp Tok.assign - 1 = 9 := by decide
+  cases e with
+  | atom t n => simp only [top]; omega
+  | paren o c e => simp only [top]; omega
+  | neg m e => simp only [top]; omega
+  | pred o c l e => simp only [top]; decide
+  | bin o l r =>
+    have : 9 < bp o.type := by
+      have := h.1
+      revert this
+      cases o.type <;> simp [binNode] <;> decide
+    simp only [top]; omega
+  | cond q col c t e => simp only [top]; decide
+  | assign v o val => simp only [top]; decide
+
+/-- the leaf tokens of the grammar denote themselves -/
+theorem nud_atom (inp : Input) (pe : Nat → PState → Except PErr (PNode × PState)) (t : Token) (p : PState)
+    (h : isAtom t.type = true) : nud inp pe t p = .ok (atomNode inp t, p) := by
+  cases ht : t.type <;> simp [ht, isAtom] at h <;> simp [nud, atomNode, ht]
+
+theorem wf_leaf (inp : Input) (t : Token) (h : isAtom t.type = true) : WF inp (.atom t (atomNode inp t)) :=
+  fun pe p => nud_atom inp pe t p h
+
+/-- a token that can start an operand: not the end of input and not a closing bracket -/
+def Starter (t : Tok) : Prop := t ≠ .eof ∧ t ≠ .parenClose ∧ t ≠ .bracketClose
+
+theorem nud_ok_starter (inp : Input) (pe : Nat → PState → Except PErr (PNode × PState)) (t : Token) (p : PState)
+    (r : PNode × PState) (h : nud inp pe t p = .ok r) : Starter t.type := by
+  refine ⟨?_, ?_, ?_⟩ <;> intro heq <;> simp [nud, heq] at h
+
+/-- a tree starts with a token that can start an operand -/
+theorem head_toks (inp : Input) (e : E) (h : WF inp e) : ∃ t tl, toks e = t :: tl ∧ Starter t.type := by
+  induction e with
+  | atom t n => exact ⟨t, [], rfl, nud_ok_starter inp (fun _ _ => .error default) t default _ (h _ _)⟩
+  | paren o c e _ => exact ⟨o, toks e ++ [c], rfl, by rw [h.1]; simp [Starter]⟩
+  | neg m e _ => exact ⟨m, toks e, rfl, by rw [h.1]; simp [Starter]⟩
+  | pred o c l e ihl _ =>
+    obtain ⟨t, tl, ht, hk⟩ := ihl h.2.2.1
+    exact ⟨t, tl ++ o :: (toks e ++ [c]), by simp [toks, ht], hk⟩
+  | bin o l r ihl _ =>
+    obtain ⟨t, tl, ht, hk⟩ := ihl h.2.1
+    exact ⟨t, tl ++ o :: toks r, by simp [toks, ht], hk⟩
+  | cond q col c t e ihc _ _ =>
+    obtain ⟨t0, tl, ht, hk⟩ := ihc h.2.2.1
+    exact ⟨t0, tl ++ q :: (toks t ++ col :: toks e), by simp [toks, ht], hk⟩
+  | assign v o val _ => exact ⟨v, o :: toks val, rfl, by rw [h.1]; simp [Starter]⟩
+
+/-- the parser is in its operator loop with `lhs` built, about to read `ts` -/
+def InLoop (inp : Input) (fuel rbp : Nat) (lhs : PNode) (ts : List Token) (bound : Nat)
+    (r : Except PErr (PNode × PState)) : Prop :=
+  ∃ n p', r = ledLoop inp (parseExpr inp fuel) n rbp lhs p' ∧ Reads inp p' ts ∧ R inp p' < n ∧ R inp p' < bound
+
+/-- the loop stops at a token that does not bind tighter than `rbp` -/
+theorem inLoop_stops (inp : Input) (fuel rbp : Nat) (lhs : PNode) (t' : Token) (rest : List Token) (bound : Nat)
+    (r : Except PErr (PNode × PState)) (h : InLoop inp fuel rbp lhs (t' :: rest) bound r) (hbp : bp t'.type ≤ rbp) :
+    ∃ p', r = .ok (lhs, p') ∧ Reads inp p' (t' :: rest) ∧ R inp p' < bound := by
+  obtain ⟨n, p', hr, hreads, hn, hb⟩ := h
+  refine ⟨p', ?_, hreads, hb⟩
+  cases n with
+  | zero => omega
+  | succ n =>
+    rw [hr]
+    unfold ledLoop
+    have : ¬ (rbp < bp p'.tok.type) := by rw [hreads.1]; omega
+    simp [this]
+
+theorem parseExpr_step (inp : Input) (fuel rbp : Nat) (p p1 : PState) (hne : p.tok.type ≠ .eof)
+    (ha : advance inp false p = .ok p1) :
+    parseExpr inp (fuel + 1) rbp p =
+      (match nud inp (parseExpr inp fuel) p.tok p1 with
+       | .ok (lhs, p2) => ledLoop inp (parseExpr inp fuel) (inp.size + 2) rbp lhs p2
+       | .error e => .error e) := by
+  have heof : (p.tok.type == Tok.eof) = false := by simpa using hne
+  unfold parseExpr
+  simp only [heof, Bool.false_eq_true, if_false, bind, Except.bind, ha]
+  cases nud inp (parseExpr inp fuel) p.tok p1 with
+  | error e => rfl
+  | ok r => rfl
+
+theorem ledLoop_step (inp : Input) (pe : Nat → PState → Except PErr (PNode × PState)) (n rbp : Nat) (lhs : PNode)
+    (p p1 : PState) (h : rbp < bp p.tok.type) (ha : advance inp true p = .ok p1) :
+    ledLoop inp pe (n + 1) rbp lhs p =
+      (match led inp pe p.tok lhs p1 with
+       | .ok (lhs', p2) => ledLoop inp pe n rbp lhs' p2
+       | .error e => .error e) := by
+  conv => lhs; unfold ledLoop
+  simp only [h, if_true, bind, Except.bind, ha]
+  cases led inp pe p.tok lhs p1 with
+  | error e => rfl
+  | ok r => rfl
+
+theorem bin_not_eof (t : Tok) (h : (binNode t).isSome = true) : t ≠ .eof := by
+  cases t <;> simp [binNode] at h <;> simp
+
+/-- **the prefix of the token stream that spells a well-formed tree is read as that tree**, whatever follows:
+    after it the parser is in its operator loop with the tree as left operand -/
+theorem parse_into_loop (inp : Input) (e : E) : WF inp e → ∀ (fuel rbp : Nat) (p : PState) (t' : Token) (rest : List Token),
+    rbp < top e → Reads inp p (toks e ++ t' :: rest) → bp t'.type ≤ stop e → R inp p < fuel + 1 →
+    InLoop inp fuel rbp (node inp e) (t' :: rest) (R inp p) (parseExpr inp (fuel + 1) rbp p) := by
+  induction e with
+  | atom t n =>
+    intro hwf fuel rbp p t' rest _ hreads _ _
+    have hpt : p.tok = t := hreads.1
+    have hne : p.tok.type ≠ .eof := by
+      rw [hpt]; exact (nud_ok_starter inp (fun _ _ => .error default) t default _ (hwf _ _)).1
+    obtain ⟨p1, ha, hr1⟩ := reads_advance inp false p t t' rest hreads
+    rw [parseExpr_step inp fuel rbp p p1 hne ha, hpt, hwf _ p1]
+    exact ⟨inp.size + 2, p1, rfl, hr1, R_le inp p1, by have := (advance_R inp false p p1 ha).2 hne; omega⟩
+  | paren o c e ih =>
+    intro hwf fuel rbp p t' rest _ hreads _ hfuel
+    obtain ⟨ho, hc, hwe⟩ := hwf
+    obtain ⟨h0, tl, htoks, hstart⟩ := head_toks inp e hwe
+    have hpt : p.tok = o := hreads.1
+    have hne : p.tok.type ≠ .eof := by rw [hpt, ho]; simp
+    have hreads' : Reads inp p (o :: h0 :: (tl ++ c :: t' :: rest)) := by
+      simpa [toks, htoks] using hreads
+    obtain ⟨p1, ha, hr1⟩ := reads_advance inp false p o h0 _ hreads'
+    have hd1 := (advance_R inp false p p1 ha).2 hne
+    have hr1' : Reads inp p1 (toks e ++ c :: (t' :: rest)) := by simpa [htoks] using hr1
+    -- the inner expression, read completely: it stops at the closing parenthesis
+    have hbc : bp Tok.parenClose = 0 := by decide
+    cases fuel with
+    | zero => omega
+    | succ f =>
+      have hin := ih hwe f 0 p1 c (t' :: rest) (top_pos inp e hwe) hr1' (by rw [hc, hbc]; omega) (by omega)
+      obtain ⟨p2, he2, hr2, hb2⟩ := inLoop_stops inp f 0 _ c (t' :: rest) _ _ hin (by rw [hc, hbc]; omega)
+      obtain ⟨p3, ha3, hr3⟩ := reads_advance inp false p2 c t' rest hr2
+      have hd3 := (advance_R inp false p2 p3 ha3).1
+      have hp1c : (p1.tok.type == Tok.parenClose) = false := by
+        have : p1.tok = h0 := hr1.1
+        rw [this]; simpa using hstart.2.1
+      have hp2 : p2.tok = c := hr2.1
+      rw [parseExpr_step inp (f + 1) rbp p p1 hne ha, hpt]
+      have hnud : nud inp (parseExpr inp (f + 1)) o p1 = .ok (.block [node inp e], p3) := by
+        unfold nud
+        simp only [ho]
+        unfold parseBlockExprs
+        simp only [hp1c, Bool.false_eq_true, if_false, bind, Except.bind, he2, consume]
+        simp [hp2, hc, ha3]
+      rw [hnud]
+      exact ⟨inp.size + 2, p3, rfl, hr3, R_le inp p3, by omega⟩
+  | neg m e ih =>
+    intro hwf fuel rbp p t' rest _ hreads hstop hfuel
+    obtain ⟨hm, hwe, htop⟩ := hwf
+    simp only [stop] at hstop
+    obtain ⟨h0, tl, htoks, _⟩ := head_toks inp e hwe
+    have hpt : p.tok = m := hreads.1
+    have hne : p.tok.type ≠ .eof := by rw [hpt, hm]; simp
+    have hreads' : Reads inp p (m :: h0 :: (tl ++ t' :: rest)) := by simpa [toks, htoks] using hreads
+    obtain ⟨p1, ha, hr1⟩ := reads_advance inp false p m h0 _ hreads'
+    have hd1 := (advance_R inp false p p1 ha).2 hne
+    have hr1' : Reads inp p1 (toks e ++ t' :: rest) := by simpa [htoks] using hr1
+    cases fuel with
+    | zero => omega
+    | succ f =>
+      -- the operand of unary minus is read at the binding power of `-`
+      have hin := ih hwe f (bp Tok.minus) p1 t' rest htop hr1' (by omega) (by omega)
+      obtain ⟨p2, he2, hr2, hb2⟩ := inLoop_stops inp f _ _ t' rest _ _ hin (by omega)
+      rw [parseExpr_step inp (f + 1) rbp p p1 hne ha, hpt]
+      have hnud : nud inp (parseExpr inp (f + 1)) m p1 = .ok (.neg (node inp e), p2) := by
+        unfold nud
+        simp only [hm, bind, Except.bind, he2]
+      rw [hnud]
+      exact ⟨inp.size + 2, p2, rfl, hr2, R_le inp p2, by omega⟩
+  | pred o c l e ihl ihe =>
+    intro hwf fuel rbp p t' rest hrbp hreads _ hfuel
+    obtain ⟨ho, hc, hwl, hwe, hlstop⟩ := hwf
+    have hbo : bp Tok.bracketOpen = 100 := by decide
+    have hbc : bp Tok.bracketClose = 0 := by decide
+    simp only [top] at hrbp
+    have hsl := stop_le_top l
+    have hreads' : Reads inp p (toks l ++ o :: (toks e ++ c :: t' :: rest)) := by
+      simpa [toks, List.append_assoc] using hreads
+    obtain ⟨n, p', heq, hrl, hn, hbl⟩ := ihl hwl fuel rbp p o _ (by omega) hreads' (by rw [ho]; exact hlstop) hfuel
+    obtain ⟨h0, tl, htoks, hstart⟩ := head_toks inp e hwe
+    have hpt : p'.tok = o := hrl.1
+    have hne : p'.tok.type ≠ .eof := by rw [hpt, ho]; simp
+    have hrl' : Reads inp p' (o :: h0 :: (tl ++ c :: t' :: rest)) := by simpa [htoks] using hrl
+    obtain ⟨p1, ha, hr1⟩ := reads_advance inp true p' o h0 _ hrl'
+    have hd1 := (advance_R inp true p' p1 ha).2 hne
+    have hr1' : Reads inp p1 (toks e ++ c :: (t' :: rest)) := by simpa [htoks] using hr1
+    cases fuel with
+    | zero => omega
+    | succ f =>
+      have hin := ihe hwe f 0 p1 c (t' :: rest) (top_pos inp e hwe) hr1' (by rw [hc, hbc]; omega) (by omega)
+      obtain ⟨p2, he2, hr2, hb2⟩ := inLoop_stops inp f 0 _ c (t' :: rest) _ _ hin (by rw [hc, hbc]; omega)
+      obtain ⟨p3, ha3, hr3⟩ := reads_advance inp false p2 c t' rest hr2
+      have hd3 := (advance_R inp false p2 p3 ha3).1
+      have hp1c : (p1.tok.type == Tok.bracketClose) = false := by
+        have : p1.tok = h0 := hr1.1
+        rw [this]; simpa using hstart.2.2
+      have hp2 : p2.tok = c := hr2.1
+      cases n with
+      | zero => omega
+      | succ n0 =>
+        refine ⟨n0, p3, ?_, hr3, by omega, by omega⟩
+        rw [heq, ledLoop_step inp _ n0 rbp _ p' p1 (by rw [hpt, ho, hbo]; omega) ha, hpt]
+        have hled : led inp (parseExpr inp (f + 1)) o (node inp l) p1 = .ok (.predRaw (node inp l) (node inp e), p3) := by
+          unfold led
+          simp only [ho, hp1c, Bool.false_eq_true, if_false, bind, Except.bind, he2, consume]
+          simp [hp2, hc, ha3]
+        rw [hled]
+        simp [node]
+  | bin o l r ihl ihr =>
+    intro hwf fuel rbp p t' rest hrbp hreads hstop hfuel
+    obtain ⟨hbin, hwl, hwr, hleft, hright⟩ := hwf
+    obtain ⟨mk, hmk⟩ := Option.isSome_iff_exists.mp hbin
+    simp only [top] at hrbp
+    simp only [stop] at hstop
+    have hsl := stop_le_top l
+    have hreads' : Reads inp p (toks l ++ o :: (toks r ++ t' :: rest)) := by
+      simpa [toks, List.append_assoc] using hreads
+    obtain ⟨n, p', heq, hrl, hn, hbl⟩ := ihl hwl fuel rbp p o (toks r ++ t' :: rest) (by omega) hreads' hleft hfuel
+    obtain ⟨h0, tl, htoks, _⟩ := head_toks inp r hwr
+    have hpt : p'.tok = o := hrl.1
+    have hne : p'.tok.type ≠ .eof := by rw [hpt]; exact bin_not_eof _ hbin
+    have hrl' : Reads inp p' (o :: h0 :: (tl ++ t' :: rest)) := by simpa [htoks] using hrl
+    obtain ⟨p1, ha, hr1⟩ := reads_advance inp true p' o h0 _ hrl'
+    have hd1 := (advance_R inp true p' p1 ha).2 hne
+    have hr1' : Reads inp p1 (toks r ++ t' :: rest) := by simpa [htoks] using hr1
+    cases fuel with
+    | zero => omega
+    | succ f =>
+      have hin := ihr hwr f (bp o.type) p1 t' rest hright hr1' (by omega) (by omega)
+      obtain ⟨p2, he2, hr2, hb2⟩ := inLoop_stops inp f (bp o.type) _ t' rest _ _ hin (by omega)
+      cases n with
+      | zero => omega
+      | succ n0 =>
+        refine ⟨n0, p2, ?_, hr2, by omega, by omega⟩
+        rw [heq, ledLoop_step inp _ n0 rbp _ p' p1 (by rw [hpt]; exact hrbp) ha, hpt,
+          led_bin inp _ o _ p1 mk hmk]
+        simp [bind, Except.bind, he2, node, hmk]
+  | cond q col c t e ihc iht ihe =>
+    intro hwf fuel rbp p t' rest hrbp hreads hstop hfuel
+    obtain ⟨hq, hcol, hwc, hwt, hwe, hcstop⟩ := hwf
+    have hbq : bp Tok.condition = 20 := by decide
+    have hbcol : bp Tok.colon = 0 := by decide
+    simp only [top] at hrbp
+    simp only [stop] at hstop
+    have hsc := stop_le_top c
+    have hreads' : Reads inp p (toks c ++ q :: (toks t ++ col :: (toks e ++ t' :: rest))) := by
+      simpa [toks, List.append_assoc] using hreads
+    obtain ⟨n, p', heq, hrc, hn, hbc⟩ := ihc hwc fuel rbp p q _ (by omega) hreads' (by rw [hq]; exact hcstop) hfuel
+    obtain ⟨h0, tl, htoks, _⟩ := head_toks inp t hwt
+    have hpt : p'.tok = q := hrc.1
+    have hne : p'.tok.type ≠ .eof := by rw [hpt, hq]; simp
+    have hrc' : Reads inp p' (q :: h0 :: (tl ++ col :: (toks e ++ t' :: rest))) := by simpa [htoks] using hrc
+    obtain ⟨p1, ha, hr1⟩ := reads_advance inp true p' q h0 _ hrc'
+    have hd1 := (advance_R inp true p' p1 ha).2 hne
+    have hr1' : Reads inp p1 (toks t ++ col :: (toks e ++ t' :: rest)) := by simpa [htoks] using hr1
+    cases fuel with
+    | zero => omega
+    | succ f =>
+      -- the then-branch, read completely up to the colon
+      have hin := iht hwt f 0 p1 col _ (top_pos inp t hwt) hr1' (by rw [hcol, hbcol]; omega) (by omega)
+      obtain ⟨p2, he2, hr2, hb2⟩ := inLoop_stops inp f 0 _ col _ _ _ hin (by rw [hcol, hbcol]; omega)
+      obtain ⟨g0, gl, gtoks, _⟩ := head_toks inp e hwe
+      have hr2' : Reads inp p2 (col :: g0 :: (gl ++ t' :: rest)) := by simpa [gtoks] using hr2
+      obtain ⟨p3, ha3, hr3⟩ := reads_advance inp true p2 col g0 _ hr2'
+      have hd3 := (advance_R inp true p2 p3 ha3).1
+      have hr3' : Reads inp p3 (toks e ++ t' :: rest) := by simpa [gtoks] using hr3
+      -- the else-branch, read at binding power 0: it takes everything up to a token without binding power
+      have hin2 := ihe hwe f 0 p3 t' rest (top_pos inp e hwe) hr3' (by omega) (by omega)
+      obtain ⟨p4, he4, hr4, hb4⟩ := inLoop_stops inp f 0 _ t' rest _ _ hin2 (by omega)
+      have hp2 : p2.tok = col := hr2.1
+      cases n with
+      | zero => omega
+      | succ n0 =>
+        refine ⟨n0, p4, ?_, hr4, by omega, by omega⟩
+        rw [heq, ledLoop_step inp _ n0 rbp _ p' p1 (by rw [hpt, hq, hbq]; omega) ha, hpt]
+        have hled : led inp (parseExpr inp (f + 1)) q (node inp c) p1
+            = .ok (.cond (node inp c) (node inp t) (some (node inp e)), p4) := by
+          unfold led
+          simp only [hq, bind, Except.bind, he2]
+          simp [hp2, hcol, consume, ha3, he4]
+        rw [hled]
+        simp [node]
+  | assign v o val ih =>
+    intro hwf fuel rbp p t' rest hrbp hreads hstop hfuel
+    obtain ⟨hv, ho, hwv⟩ := hwf
+    have hba : bp Tok.assign = 10 := by decide
+    simp only [top] at hrbp
+    simp only [stop] at hstop
+    obtain ⟨h0, tl, htoks, _⟩ := head_toks inp val hwv
+    have hpt : p.tok = v := hreads.1
+    have hne : p.tok.type ≠ .eof := by rw [hpt, hv]; simp
+    have hreads' : Reads inp p (v :: o :: (h0 :: (tl ++ t' :: rest))) := by simpa [toks, htoks] using hreads
+    obtain ⟨p1, ha, hr1⟩ := reads_advance inp false p v o _ hreads'
+    have hd1 := (advance_R inp false p p1 ha).2 hne
+    have hp1 : p1.tok = o := hr1.1
+    have hne1 : p1.tok.type ≠ .eof := by rw [hp1, ho]; simp
+    obtain ⟨p2, ha2, hr2⟩ := reads_advance inp true p1 o h0 _ hr1
+    have hd2 := (advance_R inp true p1 p2 ha2).2 hne1
+    have hr2' : Reads inp p2 (toks val ++ t' :: rest) := by simpa [htoks] using hr2
+    have hle1 := R_le inp p1
+    cases fuel with
+    | zero => omega
+    | succ f =>
+      have hin := ih hwv f (bp Tok.assign - 1) p2 t' rest (assign_lt_top inp val hwv) hr2' (by omega) (by omega)
+      obtain ⟨p3, he3, hr3, hb3⟩ := inLoop_stops inp f _ _ t' rest _ _ hin (by omega)
+      refine ⟨inp.size + 1, p3, ?_, hr3, by omega, by omega⟩
+      rw [parseExpr_step inp (f + 1) rbp p p1 hne ha, hpt]
+      have hnud : nud inp (parseExpr inp (f + 1)) v p1 = .ok (.var (bytesToString inp v.lo v.hi), p1) := by
+        simp [nud, hv]
+      rw [hnud]
+      simp only []
+      rw [ledLoop_step inp _ (inp.size + 1) rbp _ p1 p2 (by rw [hp1, ho, hba]; omega) ha2, hp1]
+      have hled : led inp (parseExpr inp (f + 1)) o (.var (bytesToString inp v.lo v.hi)) p2
+          = .ok (.assign (bytesToString inp v.lo v.hi) (node inp val), p3) := by
+        unfold led
+        simp only [ho, bind, Except.bind, he3]
+      rw [hled]
+      simp [node]
+
+/-- **Reading back.**  If the token stream of the input spells a well-formed tree `e` followed by the end of
+    input, the expression parser returns exactly `e`'s node — for every tree, of any depth and width. -/
+theorem parse_reads_back (inp : Input) (e : E) (hwf : WF inp e) (fuel : Nat) (p : PState) (eof : Token)
+    (heof : eof.type = .eof) (hreads : Reads inp p (toks e ++ [eof])) (hfuel : R inp p < fuel + 1) :
+    ∃ p', parseExpr inp (fuel + 1) 0 p = .ok (node inp e, p') ∧ p'.tok = eof := by
+  have h0 : bp eof.type = 0 := by rw [heof]; decide
+  have := parse_into_loop inp e hwf fuel 0 p eof [] (top_pos inp e hwf) hreads (by omega) hfuel
+  obtain ⟨p', he, hr, _⟩ := inLoop_stops inp fuel 0 _ eof [] _ _ this (by omega)
+  exact ⟨p', he, hr.1⟩
+
+/-- with the budget `parse` itself uses -/
+theorem parse_reads_back_budget (inp : Input) (e : E) (hwf : WF inp e) (p : PState) (eof : Token)
+    (heof : eof.type = .eof) (hreads : Reads inp p (toks e ++ [eof])) :
+    ∃ p', parseExpr inp (2 * inp.size + 8) 0 p = .ok (node inp e, p') ∧ p'.tok = eof := by
+  have := R_le inp p
+  exact parse_reads_back inp e hwf (2 * inp.size + 7) p eof heof hreads (by omega)
+
+/-- **Unambiguity**: two well-formed trees that are spelled by the same tokens are the same parse. -/
+theorem same_tokens_same_parse (inp : Input) (e1 e2 : E) (h1 : WF inp e1) (h2 : WF inp e2) (p : PState) (eof : Token)
+    (heof : eof.type = .eof) (hreads : Reads inp p (toks e1 ++ [eof])) (hsame : toks e1 = toks e2) :
+    node inp e1 = node inp e2 := by
+  obtain ⟨p1, he1, _⟩ := parse_reads_back_budget inp e1 h1 p eof heof hreads
+  obtain ⟨p2, he2, _⟩ := parse_reads_back_budget inp e2 h2 p eof heof (hsame ▸ hreads)
+  rw [he1] at he2
+  injection he2 with he2
+  injection he2
+
+/-! the statement's clauses as instances -/
+
+/-- `a o1 b o2 c` where `o2` does not bind tighter than `o1` (a lower row, or the same row: equal precedence
+    groups to the left) is `(a o1 b) o2 c` … -/
+theorem groups_left (inp : Input) (a b c : E) (o1 o2 : Token) (ha : WF inp a) (hb : WF inp b) (hc : WF inp c)
+    (h1 : (binNode o1.type).isSome = true) (h2 : (binNode o2.type).isSome = true)
+    (hab : bp o1.type ≤ stop a ∧ bp o1.type < top b) (hc' : bp o2.type < top c) (h : bp o2.type ≤ bp o1.type)
+    (hb' : bp o2.type ≤ stop b) :
+    WF inp (.bin o2 (.bin o1 a b) c) ∧ toks (.bin o2 (.bin o1 a b) c) = toks a ++ o1 :: (toks b ++ o2 :: toks c) := by
+  refine ⟨⟨h2, ⟨h1, ha, hb, hab.1, hab.2⟩, hc, by simp only [stop]; omega, hc'⟩, by simp [toks]⟩
+
+/-- … and where `o2` binds tighter it is `a o1 (b o2 c)` -/
+theorem groups_right (inp : Input) (a b c : E) (o1 o2 : Token) (ha : WF inp a) (hb : WF inp b) (hc : WF inp c)
+    (h1 : (binNode o1.type).isSome = true) (h2 : (binNode o2.type).isSome = true)
+    (ha' : bp o1.type ≤ stop a) (hbc : bp o2.type ≤ stop b ∧ bp o2.type < top c) (h : bp o1.type < bp o2.type) :
+    WF inp (.bin o1 a (.bin o2 b c)) ∧ toks (.bin o1 a (.bin o2 b c)) = toks a ++ o1 :: (toks b ++ o2 :: toks c) := by
+  refine ⟨⟨h1, ha, ⟨h2, hb, hc, hbc.1, hbc.2⟩, ha', h⟩, by simp [toks]⟩
+
+/-- parentheses override both: a parenthesised tree is an operand of any operator on either side -/
+theorem paren_is_operand (o c : Token) (e : E) (t : Tok) (h : (binNode t).isSome = true) :
+    bp t < top (.paren o c e) := by
+  simp only [top]; exact (bin_bp_pos t h).2
+
+/-! ### non-vacuity: concrete inputs whose token streams are computed by the lexer itself -/
+
+/-- `a + b * (c - d)` -/
+def exInput : Input := #[97, 32, 43, 32, 98, 32, 42, 32, 40, 99, 32, 45, 32, 100, 41]
+def tk (ty : Tok) (lo hi : Nat) : Token := { type := ty, lo := lo, hi := hi, position := lo }
+def st (c : Nat) : LState := { start := c, current := c, width := 0 }
+def leaf (inp : Input) (t : Token) : E := .atom t (atomNode inp t)
+
+def exTree : E :=
+  .bin (tk .plus 2 3) (leaf exInput (tk .name 0 1))
+    (.bin (tk .mult 6 7) (leaf exInput (tk .name 4 5))
+      (.paren (tk .parenOpen 8 9) (tk .parenClose 14 15)
+        (.bin (tk .minus 11 12) (leaf exInput (tk .name 9 10)) (leaf exInput (tk .name 13 14)))))
+
+theorem exWF : WF exInput exTree :=
+  ⟨rfl, wf_leaf _ _ rfl,
+    ⟨rfl, wf_leaf _ _ rfl, ⟨rfl, rfl, ⟨rfl, wf_leaf _ _ rfl, wf_leaf _ _ rfl, by decide, by decide⟩⟩, by decide, by decide⟩,
+    by decide, by decide⟩
+
+theorem exStream : Stream exInput (st 1) (toks exTree ++ [tk .eof 15 15]).tail := by
+  simp only [exTree, leaf, toks, List.cons_append, List.nil_append, List.tail_cons]
+  refine .cons _ (st 3) _ _ (by intro b; cases b <;> rfl) ?_
+  refine .cons _ (st 5) _ _ (by intro b; cases b <;> rfl) ?_
+  refine .cons _ (st 7) _ _ (by intro b; cases b <;> rfl) ?_
+  refine .cons _ (st 9) _ _ (by intro b; cases b <;> rfl) ?_
+  refine .cons _ (st 10) _ _ (by intro b; cases b <;> rfl) ?_
+  refine .cons _ (st 12) _ _ (by intro b; cases b <;> rfl) ?_
+  refine .cons _ (st 14) _ _ (by intro b; cases b <;> rfl) ?_
+  refine .cons _ (st 15) _ _ (by intro b; cases b <;> rfl) ?_
+  refine .cons _ (st 15) _ _ (by intro b; cases b <;> rfl) ?_
+  exact .nil _
+
+/-- the theorem applied to it: `a + b * (c - d)` parses with `*` under `+` and the parenthesised
+    difference as the right operand of `*` -/
+example : ∃ p', parseExpr exInput (2 * exInput.size + 8) 0 { lex := st 1, tok := tk .name 0 1 }
+      = .ok (.numop .add (.name "a") (.numop .mul (.name "b") (.block [.numop .sub (.name "c") (.name "d")])), p') := by
+  obtain ⟨p', h, _⟩ := parse_reads_back_budget exInput exTree exWF { lex := st 1, tok := tk .name 0 1 } (tk .eof 15 15) rfl
+    ⟨rfl, exStream⟩
+  refine ⟨p', ?_⟩
+  rw [h]
+  rfl
+
+/-- `$v := a ? b : c ? d : e` -/
+def exInput2 : Input := #[36, 118, 32, 58, 61, 32, 97, 32, 63, 32, 98, 32, 58, 32, 99, 32, 63, 32, 100, 32, 58, 32, 101]
+
+def exTree2 : E :=
+  .assign (tk .variable 1 2) (tk .assign 3 5)
+    (.cond (tk .condition 8 9) (tk .colon 12 13) (leaf exInput2 (tk .name 6 7)) (leaf exInput2 (tk .name 10 11))
+      (.cond (tk .condition 16 17) (tk .colon 20 21) (leaf exInput2 (tk .name 14 15)) (leaf exInput2 (tk .name 18 19))
+        (leaf exInput2 (tk .name 22 23))))
+
+theorem exWF2 : WF exInput2 exTree2 :=
+  ⟨rfl, rfl, ⟨rfl, rfl, wf_leaf _ _ rfl, wf_leaf _ _ rfl,
+    ⟨rfl, rfl, wf_leaf _ _ rfl, wf_leaf _ _ rfl, wf_leaf _ _ rfl, by decide⟩, by decide⟩⟩
+
+theorem exStream2 : Stream exInput2 (st 2) (toks exTree2 ++ [tk .eof 23 23]).tail := by
+  simp only [exTree2, leaf, toks, List.cons_append, List.nil_append, List.tail_cons]
+  refine .cons _ (st 5) _ _ (by intro b; cases b <;> rfl) ?_
+  refine .cons _ (st 7) _ _ (by intro b; cases b <;> rfl) ?_
+  refine .cons _ (st 9) _ _ (by intro b; cases b <;> rfl) ?_
+  refine .cons _ (st 11) _ _ (by intro b; cases b <;> rfl) ?_
+  refine .cons _ (st 13) _ _ (by intro b; cases b <;> rfl) ?_
+  refine .cons _ (st 15) _ _ (by intro b; cases b <;> rfl) ?_
+  refine .cons _ (st 17) _ _ (by intro b; cases b <;> rfl) ?_
+  refine .cons _ (st 19) _ _ (by intro b; cases b <;> rfl) ?_
+  refine .cons _ (st 21) _ _ (by intro b; cases b <;> rfl) ?_
+  refine .cons _ (st 23) _ _ (by intro b; cases b <;> rfl) ?_
+  refine .cons _ (st 23) _ _ (by intro b; cases b <;> rfl) ?_
+  exact .nil _
+
+/-- `:=` takes the whole conditional as its value and the else-branch takes the second conditional:
+    both group to the right -/
+example : ∃ p', parseExpr exInput2 (2 * exInput2.size + 8) 0 { lex := st 2, tok := tk .variable 1 2 }
+      = .ok (.assign "v" (.cond (.name "a") (.name "b") (some (.cond (.name "c") (.name "d") (some (.name "e"))))), p') := by
+  obtain ⟨p', h, _⟩ := parse_reads_back_budget exInput2 exTree2 exWF2 { lex := st 2, tok := tk .variable 1 2 }
+    (tk .eof 23 23) rfl ⟨rfl, exStream2⟩
+  refine ⟨p', ?_⟩
+  rw [h]
+  rfl
+
+/-- `-a[b] * c.d` -/
+def exInput3 : Input := #[45, 97, 91, 98, 93, 32, 42, 32, 99, 46, 100]
+
+def exTree3 : E :=
+  .neg (tk .minus 0 1)
+    (.bin (tk .mult 6 7)
+      (.pred (tk .bracketOpen 2 3) (tk .bracketClose 4 5) (leaf exInput3 (tk .name 1 2)) (leaf exInput3 (tk .name 3 4)))
+      (.bin (tk .dot 9 10) (leaf exInput3 (tk .name 8 9)) (leaf exInput3 (tk .name 10 11))))
+
+theorem exWF3 : WF exInput3 exTree3 :=
+  ⟨rfl, ⟨rfl, ⟨rfl, rfl, wf_leaf _ _ rfl, wf_leaf _ _ rfl, by decide⟩,
+    ⟨rfl, wf_leaf _ _ rfl, wf_leaf _ _ rfl, by decide, by decide⟩, by decide, by decide⟩, by decide⟩
+
+theorem exStream3 : Stream exInput3 (st 1) (toks exTree3 ++ [tk .eof 11 11]).tail := by
+  simp only [exTree3, leaf, toks, List.cons_append, List.nil_append, List.tail_cons]
+  refine .cons _ (st 2) _ _ (by intro b; cases b <;> rfl) ?_
+  refine .cons _ (st 3) _ _ (by intro b; cases b <;> rfl) ?_
+  refine .cons _ (st 4) _ _ (by intro b; cases b <;> rfl) ?_
+  refine .cons _ (st 5) _ _ (by intro b; cases b <;> rfl) ?_
+  refine .cons _ (st 7) _ _ (by intro b; cases b <;> rfl) ?_
+  refine .cons _ (st 9) _ _ (by intro b; cases b <;> rfl) ?_
+  refine .cons _ (st 10) _ _ (by intro b; cases b <;> rfl) ?_
+  refine .cons _ (st 11) _ _ (by intro b; cases b <;> rfl) ?_
+  refine .cons _ (st 11) _ _ (by intro b; cases b <;> rfl) ?_
+  exact .nil _
+
+/-- the postfix predicate binds tightest, then `.`, then `*`, and unary minus takes the whole product -/
+example : ∃ p', parseExpr exInput3 (2 * exInput3.size + 8) 0 { lex := st 1, tok := tk .minus 0 1 }
+      = .ok (.neg (.numop .mul (.predRaw (.name "a") (.name "b")) (.dot (.name "c") (.name "d"))), p') := by
+  obtain ⟨p', h, _⟩ := parse_reads_back_budget exInput3 exTree3 exWF3 { lex := st 1, tok := tk .minus 0 1 }
+    (tk .eof 11 11) rfl ⟨rfl, exStream3⟩
+  refine ⟨p', ?_⟩
+  rw [h]
+  rfl
+
 
 end Jsonata.Props.C04
